@@ -40,13 +40,14 @@ def _fields(ck, m):
                 cache = d[5:]
     ck.need(cache is not None, "cannot derive cache attribute from StrPatchwork.find")
     buf = None
-    for n in walk_body(find):
-        if isinstance(n, ast.Assign) and any(dotted(t) == "self." + cache for t in n.targets):
-            for x in walk_local(n.value):
-                d = dotted(x) if isinstance(x, ast.Attribute) else None
-                if d and d.startswith("self.") and d != "self." + cache:
-                    buf = d[5:]
-    ck.need(buf is not None, "cannot derive buffer attribute from StrPatchwork.find")
+    ln = meths.get("__len__")
+    ck.need(ln is not None, "StrPatchwork.__len__ vanished")
+    for n in walk_body(ln):
+        if isinstance(n, ast.Call) and callee_attr(n) == "len" and n.args:
+            d = dotted(n.args[0])
+            if d and d.startswith("self."):
+                buf = d[5:]
+    ck.need(buf is not None, "cannot derive buffer attribute from StrPatchwork.__len__")
     return meths, buf, cache
 
 
